@@ -159,6 +159,10 @@ class Config(_mixins.CodeMixin):
     def seed_sequence(self, value: Any) -> None:
         self._seed_sequence = value
         self.rng = np.random.default_rng(self._seed_sequence)
+        # NOTE: The samplers relying on the standard library use this generator
+        # instead of the global `random` state, which any other code (e.g., creating
+        # another `Config`) may reseed or consume.
+        self.python_rng = random.Random(self._seed_sequence)
         random.seed(self._seed_sequence)
 
     @property
@@ -182,6 +186,7 @@ class Config(_mixins.CodeMixin):
         # NOTE: We want to preserve the RNG, otherwise simulations may lead to repeated
         # samples if the user reuses the simulator.
         config_copy.rng = self.rng
+        config_copy.python_rng = self.python_rng
 
         return config_copy
 
